@@ -373,7 +373,19 @@ enum AssertKind {
 /// C02-H1: `A  v X = e <c>`: enforced exactly against (pre + this posting); the error carries this
 /// posting's account and assertion spans; on success the account holds exactly pre + v.
 fn check_assertion(kind: AssertKind) -> (bool, bool) {
-    let mut st = pre_state();
+    check_assertion_on(pre_state(), kind)
+}
+
+/// Pre-state in which account A was never posted to (no entry in the running balance at all).
+fn pre_state_fresh() -> Step {
+    let mut ctx = new_ctx();
+    let acc = ctx.accounts.ensure("A");
+    let cx = ctx.commodities.ensure("X");
+    let cy = ctx.commodities.ensure("Y");
+    Step { ctx, bal: Balance::default(), acc, cx, cy, a: Decimal::ZERO, b: Decimal::ZERO }
+}
+
+fn check_assertion_on(mut st: Step, kind: AssertKind) -> (bool, bool) {
     // v at scale 2 and an optional declared precision of 1 for X: the assertion must be exact, not "equal
     // after rounding to the commodity's display precision"
     let v = dec16(2);
@@ -434,6 +446,7 @@ fn check_assertion(kind: AssertKind) -> (bool, bool) {
 
 vk_proof_models! { unwind 6; fn c02_assert_same_commodity() { let o = check_assertion(AssertKind::SameCommodity); vk_cover!(o.0, "assertion holds"); vk_cover!(o.1, "assertion fails"); } }
 vk_proof_models! { unwind 6; fn c02_assert_other_commodity() { let o = check_assertion(AssertKind::OtherCommodity); vk_cover!(o.0, "assertion holds"); vk_cover!(o.1, "assertion fails"); } }
+vk_proof_models! { unwind 6; fn c02_assert_fresh_account() { let o = check_assertion_on(pre_state_fresh(), AssertKind::SameCommodity); vk_cover!(o.0, "assertion holds"); vk_cover!(o.1, "assertion fails"); } }
 vk_proof_models! { unwind 6; fn c02_assert_bare_zero() { let o = check_assertion(AssertKind::BareZero); vk_cover!(o.0, "assertion holds"); vk_cover!(o.1, "assertion fails"); } }
 
 /// C03-H3/H4: `A  = e X` and `A  = 0` without an amount.
@@ -686,6 +699,7 @@ fn verif_replay_entry() {
         ("c02_kernel_other_commodity", c02_kernel_other_commodity as fn()),
         ("c02_kernel_bare_zero", c02_kernel_bare_zero as fn()),
         ("c03_deduce_kernel", c03_deduce_kernel as fn()),
+        ("c02_assert_fresh_account", c02_assert_fresh_account as fn()),
         ("c12_declare_account", c12_declare_account as fn()),
         ("c12_declare_commodity", c12_declare_commodity as fn()),
         ("c03_assign_commodity", c03_assign_commodity as fn()),
